@@ -18,7 +18,8 @@ THEOREMS = [
     "SC.commitA_fields", "SC.rstep_kstep", "SC.serinv_init", "SC.serinv_rstep", "SC.astep_rstep",
     "SC.serializable_run", "SC.serializable_restricted", "SC.select_serial", "SC.dvinv_reachable",
     # no panic in the restricted fragment (changeset shapes it produces)
-    "SC.applyOps_insert_some", "SC.applyOps_dels_some", "SC.applyOps_compaction_some", "SC.no_panic_partial",
+    "SC.applyOps_insert_some", "SC.applyOps_dels_some", "SC.dvDels_nil", "SC.applyOps_compaction_some",
+    "SC.no_panic_partial",
     # refutations of the unrestricted statements, by evaluation of schedules taken from the
     # implementation
     "SC.create_create_witness", "SC.drop_vs_compaction_panic_witness", "SC.drop_vs_insert_witness",
